@@ -17,6 +17,25 @@ Lemma stepd_kind : forall s lb s', InvD s -> lstep s lb = Some s' ->
 Proof.
   intros s lb s' D H c Hc. pose proof (d_kind _ _ D c Hc) as K. pose proof (helper_ne0d c Hc).
   step_inv_fine H; crunch; use_eqs; cbn [hkind] in *; auto; try congruence.
+Qed.
+
+Lemma mquit_absorb : forall s lb s', lstep s lb = Some s' -> mquit (pc (th s 0)) = true -> mquit (pc (th s' 0)) = true.
+Proof.
+  intros s lb s' H. step_inv_fine H; crunch; use_eqs; cbn [mquit] in *; auto; try discriminate.
+  all: try (intros X; repeat match type of X with context [match ?x with _ => _ end] => destruct x; try discriminate end; auto).
+Qed.
+
+Lemma stepd_quit : forall s lb s', InvD s -> lstep s lb = Some s' ->
+  mquit (pc (th s' 0)) = false -> forall c, helper c ->
+    qa (th s' c) = (-1)%Z /\ (forall m, In m (qu s' c) -> is_quitmsg m = false) /\
+    pcquit (pc (th s' c)) = false.
+Proof.
+  intros s lb s' D H Hm c Hc.
+  assert (Hm0 : mquit (pc (th s 0)) = false).
+  { destruct (mquit (pc (th s 0))) eqn:E; auto. rewrite (mquit_absorb s lb s' H E) in Hm. discriminate. }
+  pose proof (d_quit _ _ D Hm0) as Q. pose proof (helper_ne0d c Hc) as Hc0.
+  destruct (Q c Hc) as (Q1 & Q2 & Q3).
+  step_inv_fine H; crunch; use_eqs; cbn [pcquit mquit] in *; auto; try discriminate.
   Show.
 Abort.
 End P.
